@@ -230,7 +230,11 @@ def _saw(env, s, b, napp, perf, table=None, timeout=2, enc="float", inner_kind="
         if isinstance(napp, (list, tuple)):
             return napp[k] if k < len(napp) else napp[-1]
         return napp
-    if all(navail[i] >= req(k) for k, i in enumerate(order)):
+    # (when the batch is larger than what the requested numbers can supply over all candidate samples, the wrapper has
+    #  to assign more annotators than requested to fill it: the request is a preference, the batch size is not)
+    n_cand_samples = len({j for (j, a) in s.avail})
+    enough = sum(req(k) for k in range(n_cand_samples)) >= len(pairs)
+    if enough and all(navail[i] >= req(k) for k, i in enumerate(order)):
         env.prove(all(per[i] == req(k) for k, i in enumerate(order[:-1])), "annotators_per_sample_respected",
                   info=dict(pairs=pairs, requested=napp))
     return pairs
